@@ -149,14 +149,14 @@ Section Links.
 End Links.
 
 Section Run.
-  Context {F : Type} (A : Arith F) (eps9 eps7 eps12 : F).
+  Context {F : Type} (A : Arith F) (pi2 : F) (eps9 eps7 eps12 : F).
 
   Lemma links_weaken {C} (L : list (schnitz F)) (Q : list (nat * C)) idx : links_inv L Q idx -> links_inv L Q (S idx).
   Proof. intros (Hp & Hd & H1 & H2 & H3). split; [exact Hp|split; [exact Hd|split; [exact H1|split; [exact H2|]]]]. intros i sid c s0 Hle. apply H3. lia. Qed.
 
   Lemma wl_step_inv fuel l sps ts final u item w w' idx :
     links_inv (w_lineage w) (w_queue w) idx -> nth_error (w_queue w) idx = Some item ->
-    wl_step A eps9 eps7 eps12 fuel l sps ts final u item w = Done w' -> links_inv (w_lineage w') (w_queue w') (S idx).
+    wl_step A pi2 eps9 eps7 eps12 fuel l sps ts final u item w = Done w' -> links_inv (w_lineage w') (w_queue w') (S idx).
   Proof.
     intros Hinv Hidx H. unfold wl_step in H. destruct item as [sid c].
     destruct (fleb A (fsub A final eps9) (cs_time c)); [inversion H; subst; apply links_weaken; auto|].
@@ -165,8 +165,8 @@ Section Run.
     destruct (feqb A (cs_t0 c) (cs_time c)); [discriminate|].
     destruct (nth_error sps (Z.to_nat (cs_divided c))) as [sp|]; [|discriminate].
     set (dd := partition_lineage A (sp_vmode sp) (sp_perfect sp) (sp_binomial sp) (sp_noise sp) (cs_x c) (cs_V c) u (w_pos w)) in *.
-    destruct (cell_simulate A eps9 eps7 fuel l (truncate_lt A ts (cs_time c)) _ u (d_pos dd)) as [st1| |k1]; try discriminate.
-    destruct (cell_simulate A eps9 eps7 fuel l (truncate_lt A ts (cs_time c)) _ u (ls_pos st1)) as [st2| |k2]; try discriminate.
+    destruct (cell_simulate A pi2 eps9 eps7 fuel l (truncate_lt A ts (cs_time c)) _ u (d_pos dd)) as [st1| |k1]; try discriminate.
+    destruct (cell_simulate A pi2 eps9 eps7 fuel l (truncate_lt A ts (cs_time c)) _ u (ls_pos st1)) as [st2| |k2]; try discriminate.
     inversion H; subst; clear H. cbn [w_lineage w_queue]. unfold schnitz_of.
     apply divide_inv with (c := c); auto.
     - match goal with |- context [if ?b then _ else _] => destruct b end; [right; eexists; reflexivity|left; reflexivity].
@@ -174,30 +174,30 @@ Section Run.
   Qed.
 
   Lemma wl_loop_inv cfuel fuel l sps ts final u : forall idx w w',
-    links_inv (w_lineage w) (w_queue w) idx -> wl_loop A eps9 eps7 eps12 cfuel fuel l sps ts final u idx w = Done w' ->
+    links_inv (w_lineage w) (w_queue w) idx -> wl_loop A pi2 eps9 eps7 eps12 cfuel fuel l sps ts final u idx w = Done w' ->
     exists idx', links_inv (w_lineage w') (w_queue w') idx'.
   Proof.
     induction cfuel as [|cfuel IH]; intros idx w w' Hinv H; simpl in H.
     - destruct (nth_error (w_queue w) idx); [discriminate|]. inversion H; subst. eauto.
     - destruct (nth_error (w_queue w) idx) as [item|] eqn:E; [|inversion H; subst; eauto].
-      destruct (wl_step A eps9 eps7 eps12 fuel l sps ts final u item w) as [w1| |k] eqn:Es; try discriminate.
+      destruct (wl_step A pi2 eps9 eps7 eps12 fuel l sps ts final u item w) as [w1| |k] eqn:Es; try discriminate.
       eapply IH; [|exact H]. eapply wl_step_inv; eauto.
   Qed.
 
   Lemma sim_initial_inv fuel l ts u : forall cells w w',
-    links_inv (w_lineage w) (w_queue w) 0 -> sim_initial A eps9 eps7 fuel l ts cells u w = Done w' -> links_inv (w_lineage w') (w_queue w') 0.
+    links_inv (w_lineage w) (w_queue w) 0 -> sim_initial A pi2 eps9 eps7 fuel l ts cells u w = Done w' -> links_inv (w_lineage w') (w_queue w') 0.
   Proof.
     induction cells as [|c cells IH]; intros w w' Hinv H; simpl in H; [inversion H; subst; auto|].
-    destruct (cell_simulate A eps9 eps7 fuel l ts c u (w_pos w)) as [st| |k]; try discriminate.
+    destruct (cell_simulate A pi2 eps9 eps7 fuel l ts c u (w_pos w)) as [st| |k]; try discriminate.
     apply IH in H; auto. cbn [w_lineage w_queue]. unfold schnitz_of. apply add_root_inv. exact Hinv.
   Qed.
 
   (* whole lineage: mother / daughter links are mutual, a daughter is recorded after its mother, daughters are distinct *)
   Theorem lineage_links_mutual cfuel fuel l sps ts cells u pos w :
-    simulate_lineage A eps9 eps7 eps12 cfuel fuel l sps ts cells u pos = Done w ->
+    simulate_lineage A pi2 eps9 eps7 eps12 cfuel fuel l sps ts cells u pos = Done w ->
     parent_ok (w_lineage w) /\ daughters_ok (w_lineage w).
   Proof.
-    unfold simulate_lineage. destruct (sim_initial A eps9 eps7 fuel l ts cells u (mkW [] [] pos)) as [w0| |k] eqn:E0; try discriminate.
+    unfold simulate_lineage. destruct (sim_initial A pi2 eps9 eps7 fuel l ts cells u (mkW [] [] pos)) as [w0| |k] eqn:E0; try discriminate.
     intros H. assert (H0 : links_inv (w_lineage (mkW (F:=F) [] [] pos)) (w_queue (mkW (F:=F) [] [] pos)) 0).
     { cbn. split; [|split; [|split; [|split]]].
       - intros j s0 p Hj. destruct j; discriminate.
